@@ -284,14 +284,17 @@ impl<'a> Walk<'a> {
             }
         }
 
-        // Skip already visited paths. We're checking only when follow_links is true,
-        // because inserting into a shared hash set is costly.
-        if self.follow_links && !state.visited.insert(entry.path.hash128()) {
+        // Skip entries ignored by .gitignore
+        if !self.no_ignore && gitignore.matches(&entry.path, entry.tpe == EntryType::Dir) {
             return;
         }
 
-        // Skip entries ignored by .gitignore
-        if !self.no_ignore && gitignore.matches(&entry.path, entry.tpe == EntryType::Dir) {
+        // Skip already visited paths. We're checking only when follow_links is true,
+        // because inserting into a shared hash set is costly.
+        // This must come after the ignore check: the ignore rules depend on the route by which
+        // the entry was reached, and an entry ignored on one route must not block another route,
+        // or else the result would depend on which thread got there first.
+        if self.follow_links && !state.visited.insert(entry.path.hash128()) {
             return;
         }
 
